@@ -37,11 +37,6 @@
     // ---- built-in functions (U-builtin)
     /// byte length of the UTF-8 text (String::len; uninterpreted)
     pub uninterp spec fn utf8_len(s: Seq<char>) -> nat;
-    /// `le(x)`: the same size n = 8k, and the k bytes of x's low n bits read in the opposite order
-    pub open spec fn le_swapped(x: util::BigInt, r: util::BigInt) -> bool {
-        x.size is Some && r.size == x.size
-        && exists|b: Seq<u8>| b.len() == x.size->0 / 8 && #[trigger] num_bigint::unsigned_le(b) == x.val() % (pow2(x.size->0 as nat) as int) && r.val() == num_bigint::unsigned_be(b)
-    }
     /// R16 helper (ASSUMED): `self.coallesce_to_integer().get_bigint()`
     #[verifier::external_body]
     pub fn verif_coalesced_bigint(v: &Value) -> (r: Option<util::BigInt>)
